@@ -131,13 +131,22 @@ const vcfgSubnetsBadGen = `
 `
 
 type vcfgFiles struct {
-	dir string
-	n   int
+	dir   string
+	n     int
+	paths map[string]string // content -> path: every distinct file is written once
 }
 
-func (f *vcfgFiles) next(ext string) string {
+func (f *vcfgFiles) file(ext, txt string) string {
+	if p, ok := f.paths[ext+txt]; ok {
+		return p
+	}
 	f.n++
-	return filepath.Join(f.dir, fmt.Sprintf("f%d%s", f.n%64, ext))
+	p := filepath.Join(f.dir, fmt.Sprintf("f%d%s", f.n, ext))
+	if err := os.WriteFile(p, []byte(txt), 0o644); err != nil {
+		panic(err)
+	}
+	f.paths[ext+txt] = p
+	return p
 }
 
 func vcfgStr(m map[string]any, k string) string { s, _ := m[k].(string); return s }
@@ -150,15 +159,11 @@ func (f *vcfgFiles) toml(row map[string]any) (string, string) {
 	case "shipped":
 		return "../../../cmd/application/app_config.toml", "(the shipped file)"
 	case "syntax":
-		p := f.next(".toml")
 		txt := "log_level = \"error\"\ncovert_blocklist_subnets = [ \"10.0.0.0/8\", \n= = not toml\n"
-		os.WriteFile(p, []byte(txt), 0o644)
-		return p, txt
+		return f.file(".toml", txt), txt
 	case "wrongtype":
-		p := f.next(".toml")
 		txt := "log_level = \"error\"\ncovert_blocklist_subnets = \"10.0.0.0/8\"\ncache_capacity = \"ten\"\n"
-		os.WriteFile(p, []byte(txt), 0o644)
-		return p, txt
+		return f.file(".toml", txt), txt
 	}
 	var b strings.Builder
 	// keys of Config and ZMQConfig (never of RegConfig): always present
@@ -192,8 +197,7 @@ func (f *vcfgFiles) toml(row map[string]any) (string, string) {
 	case "missing":
 		fmt.Fprintf(&b, "geoip_cc_db_path = %q\ngeoip_asn_db_path = %q\n", filepath.Join(f.dir, "no-cc.mmdb"), filepath.Join(f.dir, "no-asn.mmdb"))
 	case "garbage":
-		g := filepath.Join(f.dir, "garbage.mmdb")
-		os.WriteFile(g, []byte("this is not a MaxMind database\n"), 0o644)
+		g := f.file(".mmdb", "this is not a MaxMind database\n")
 		fmt.Fprintf(&b, "geoip_cc_db_path = %q\ngeoip_asn_db_path = %q\n", g, g)
 	}
 	if v, ok := vcfgWorkers[vcfgStr(row, "wk")]; ok {
@@ -202,9 +206,7 @@ func (f *vcfgFiles) toml(row map[string]any) (string, string) {
 	if vcfgStr(row, "pub") == "true" {
 		b.WriteString("covert_blocklist_public_addrs = true\n")
 	}
-	p := f.next(".toml")
-	os.WriteFile(p, []byte(b.String()), 0o644)
-	return p, b.String()
+	return f.file(".toml", b.String()), b.String()
 }
 
 func (f *vcfgFiles) subnets(sf string) string {
@@ -223,9 +225,7 @@ func (f *vcfgFiles) subnets(sf string) string {
 	default:
 		panic("subnets file state " + sf)
 	}
-	p := f.next(".subnets.toml")
-	os.WriteFile(p, []byte(txt), 0o644)
-	return p
+	return f.file(".subnets.toml", txt)
 }
 
 // ------------------------------------------------------------------ the station as main.go assembles it
@@ -257,8 +257,16 @@ var vcfgChildren int
 
 // vcfgChild runs the start-up in a child process and classifies how it ended
 func vcfgChild() string {
+	// the fatal exit is decided by the liveness options alone (first thing NewRegistrationManager does): one child
+	// per distinct set of liveness lines
 	txt, _ := os.ReadFile(os.Getenv("CJ_STATION_CONFIG"))
-	key := fmt.Sprintf("%x|%s", sha256.Sum256(txt), filepath.Base(os.Getenv("PHANTOM_SUBNET_LOCATION")))
+	lines := []string{}
+	for _, l := range strings.Split(string(txt), "\n") {
+		if strings.HasPrefix(l, "cache_") {
+			lines = append(lines, l)
+		}
+	}
+	key := fmt.Sprintf("%x", sha256.Sum256([]byte(strings.Join(lines, "\n"))))
 	if r, ok := vcfgChildCache[key]; ok {
 		return r
 	}
@@ -325,7 +333,7 @@ func vcfgPanicText(r any) string {
 }
 
 // vcfgLoad is main.go's start-up sequence up to the point where the loops start
-func vcfgLoad(f *vcfgFiles, row map[string]any, sf string) (s *vcfgStation, res string, panicked bool, how string) {
+func vcfgLoad(f *vcfgFiles, row map[string]any, sf string, pipeline bool) (s *vcfgStation, res string, panicked bool, how string) {
 	cfgPath, _ := f.toml(row)
 	os.Setenv("CJ_STATION_CONFIG", cfgPath)
 	os.Setenv("PHANTOM_SUBNET_LOCATION", f.subnets(sf))
@@ -389,6 +397,9 @@ func vcfgLoad(f *vcfgFiles, row map[string]any, sf string) (s *vcfgStation, res 
 		panic(fmt.Sprintf("unknown liveness tester %T", rm.LivenessTester))
 	}
 	// the ingest pipeline with the configured number of workers
+	if !pipeline && vcfgStr(row, "wk") == "unset" {
+		return s, "accepted", false, "in-process"
+	}
 	ctx, cancel := context.WithCancel(context.Background())
 	s.cancel = cancel
 	s.wg = new(sync.WaitGroup)
@@ -592,7 +603,7 @@ func vcfgSetup(t *testing.T) (*vcfgFiles, func()) {
 	devnull, _ := os.OpenFile(os.DevNull, os.O_WRONLY, 0)
 	os.Stdout = devnull
 	oldCfg, oldSub := os.Getenv("CJ_STATION_CONFIG"), os.Getenv("PHANTOM_SUBNET_LOCATION")
-	return &vcfgFiles{dir: dir}, func() {
+	return &vcfgFiles{dir: dir, paths: map[string]string{}}, func() {
 		os.Stdout = oldOut
 		devnull.Close()
 		net.DefaultResolver = oldRes
@@ -636,14 +647,14 @@ func vcfgOps(beh []map[string]any) []string {
 }
 
 // apply executes one abstract action with the real code; returns the observation in the spec's obs format
-func vcfgApply(f *vcfgFiles, cur **vcfgStation, step map[string]any, withHK bool, notes *[]string) map[string]any {
+func vcfgApply(f *vcfgFiles, cur **vcfgStation, step map[string]any, withHK bool, pipeline bool, notes *[]string) map[string]any {
 	a := vcfgStr(step, "a")
 	got := map[string]any{"a": a}
 	switch a {
 	case "Load":
 		row := step["row"].(map[string]any)
 		sf := vcfgStr(step, "sf")
-		s, res, panicked, how := vcfgLoad(f, row, sf)
+		s, res, panicked, how := vcfgLoad(f, row, sf, pipeline)
 		*cur = s
 		got["row"], got["sf"], got["res"], got["panicked"] = row, sf, res, panicked
 		*notes = append(*notes, "load: "+how)
@@ -687,6 +698,7 @@ func TestVerifConfigReplay(t *testing.T) {
 	defer restore()
 	nb, ns, nm, nacc := 0, 0, 0, 0
 	hows := map[string]int{}
+	sigs := map[string]int{}
 	vReadLines(t, func(line []byte) {
 		var beh []map[string]any
 		if err := json.Unmarshal(line, &beh); err != nil {
@@ -697,7 +709,9 @@ func TestVerifConfigReplay(t *testing.T) {
 		for i, step := range beh {
 			ns++
 			notes := []string{}
-			got := vcfgApply(f, &cur, step, true, &notes)
+			// the ingest pipeline (300 workers by default) is started for decision-table rows and sampled rows, and
+			// in reload sequences only when a worker count is configured
+			got := vcfgApply(f, &cur, step, true, len(beh) == 1 || nb%4 == 0, &notes)
 			if i == 0 {
 				if got["res"] == "accepted" {
 					nacc++
@@ -714,7 +728,18 @@ func TestVerifConfigReplay(t *testing.T) {
 			}
 			if vCanon(vNorm(got)) != vCanon(step) {
 				nm++
-				if nm <= 600 {
+				// keep up to 30 examples of every KIND of divergence (action, outcome, which measured parts differ)
+				gn := vNorm(got).(map[string]any)
+				sig := fmt.Sprintf("%v|%v|%v|%v", step["a"], gn["res"], gn["panicked"], gn["selNew"])
+				ws, _ := step["st"].(map[string]any)
+				gs, _ := gn["st"].(map[string]any)
+				for _, k := range []string{"up", "covert", "domain", "phantom", "sel", "geo", "hk"} {
+					if vCanon(ws[k]) != vCanon(gs[k]) {
+						sig += "|" + k
+					}
+				}
+				sigs[sig]++
+				if sigs[sig] <= 30 {
 					out.Emit(map[string]any{"kind": "mismatch", "beh": nb, "step": i, "want": step, "got": vNorm(got), "ops": vcfgOps(beh[:i+1]), "notes": notes, "start": beh[0]["row"]})
 				}
 				break
@@ -725,7 +750,7 @@ func TestVerifConfigReplay(t *testing.T) {
 		}
 		cur.stop()
 	})
-	out.Emit(map[string]any{"kind": "summary", "behaviours": nb, "steps": ns, "mismatches": nm, "accepted": nacc, "how": hows, "children": vcfgChildren})
+	out.Emit(map[string]any{"kind": "summary", "behaviours": nb, "steps": ns, "mismatches": nm, "accepted": nacc, "how": hows, "children": vcfgChildren, "kinds": sigs})
 }
 
 // random sequences, with housekeeping as separate events (one module at a time) - not derived from the spec
@@ -772,7 +797,7 @@ func TestVerifConfigRandom(t *testing.T) {
 		var cur *vcfgStation
 		notes := []string{}
 		sf := pick("S1", "S1", "S1", "S2", "malformed", "missing", "badgen")
-		out.Emit(vcfgApply(f, &cur, map[string]any{"a": "Load", "row": row(false), "sf": sf}, false, &notes))
+		out.Emit(vcfgApply(f, &cur, map[string]any{"a": "Load", "row": row(false), "sf": sf}, false, true, &notes))
 		for i := 0; i < nops && cur != nil; i++ {
 			var step map[string]any
 			switch x := rng.Intn(100); {
@@ -783,7 +808,7 @@ func TestVerifConfigRandom(t *testing.T) {
 			default:
 				step = map[string]any{"a": "Reload", "row": row(true), "sf": pick("S1", "S2", "S2", "malformed", "missing", "badgen")}
 			}
-			out.Emit(vcfgApply(f, &cur, step, false, &notes))
+			out.Emit(vcfgApply(f, &cur, step, false, true, &notes))
 		}
 		cur.stop()
 	}
